@@ -269,7 +269,12 @@ def late_custom_downstream(res, missing):
         pat = re.compile(
             r'^\[%s/%s/%02d:(succeeded|failed)[^\]]*\] completed output %s$'
             % (re.escape(key[0]), re.escape(key[1]), key[2], re.escape(out)))
-        if any(pat.match(m) for _l, m in res.log):
+        # (or, the job having failed and the task gone back to waiting for a
+        # retry, the polled message is ignored as one of an old submit)
+        pat2 = re.compile(r'^\[%s/%s:waiting[^\]]*\] \(polled-ignored\)msg %s$'
+                          % (re.escape(key[0]), re.escape(key[1]),
+                             re.escape(out)))
+        if any(pat.match(m) or pat2.match(m) for _l, m in res.log):
             roots.add((key[1], res.prog.ppoint(key[0]), out))
     if not roots:
         return False
@@ -286,6 +291,12 @@ def late_custom_downstream(res, missing):
                 'failed', 'expired'] + list(res.prog.tasks[t].customs)
         for o in outs:
             todo.extend(model.children(t, p, o))
+        # the next instance of the same task may be spawned only by the
+        # release of this one from the runahead limit (a parentless
+        # instance after one with parents: see finding C04-F1)
+        later = [q for q in model._valid[t] if q > p]
+        if later:
+            todo.append((t, min(later)))
     return set(missing) <= seen
 
 
